@@ -291,7 +291,59 @@ def _replies_equal(got, want):
     return True
 
 
-COMPONENTS = {'history': history_case}
+def real_history_case(ctx, case):
+    """The same history over real loopback TCP (validation of the
+    in-memory transport): K1/K2/K4 only, end = disconnect."""
+    from vlib import realnet
+    from vlib.core import HarnessError
+    version = case['version']
+    history = [tuple(h) for h in case['history']]
+    ctx.ev()
+    items = [to_item(version, h) for h in history]
+    login = []
+    if case.get('compress') is not None:
+        login.append(('compress', case['compress']))
+    login.append(('success',))
+    srvs = []
+
+    def factory(addr):
+        s = servers.Server({'version': version, 'login': login,
+                            'play': {'bursts': [items], 'mode': 'all',
+                                     'end': 'disconnect'}})
+        srvs.append(s)
+        return s
+    world = realnet.RealWorld(factory)
+    try:
+        excs, exits = [], []
+        from minecraft.networking.connection import Connection
+        conn = Connection('127.0.0.1', world.port, username='tester',
+                          allowed_versions={version},
+                          handle_exception=lambda e, i: excs.append(e),
+                          handle_exit=lambda: exits.append(1))
+        conn.connect()
+        if world.settle(conn) != 'done':
+            raise HarnessError('real-socket run did not settle (timeout)')
+    finally:
+        world.close()
+    srv = srvs[0]
+    want = expected_replies(version, history)
+    if srv.errors:
+        ctx.fail('real_history', 'K1-malformed-client-frames', case,
+                 srv.errors)
+    elif not _replies_equal(list(srv.replies), want):
+        ctx.fail('real_history', 'K1K2-replies', case, srv.replies[:3],
+                 want[:3])
+    if excs:
+        ctx.fail('real_history', 'K4-error-on-clean-disconnect', case,
+                 repr(excs[0]))
+    elif exits != [1]:
+        ctx.fail('real_history', 'K4-exit-callback', case, exits, [1])
+    ctx.label('traces_validated_against_real_sockets')
+    if len(history) >= 3:
+        ctx.nt('real', repr(case))
+
+
+COMPONENTS = {'history': history_case, 'real_history': real_history_case}
 
 
 # --------------------------------------------------------------- strategies
@@ -395,6 +447,15 @@ def t_random(ctx, versions, n, maxlen):
     hyp(ctx, 'random', case_strategy(versions, maxlen), body, n)
 
 
+def t_real(ctx, versions, n):
+    def body(c, case):
+        case = dict(case, end='disconnect', delivery='all')
+        real_history_case(c, case)
+    hyp(ctx, 'real', case_strategy(versions, 60), body, n)
+    ctx.sample({'note': 'same scripts and oracles over 127.0.0.1 TCP'},
+               'real')
+
+
 def tasks(tier):
     q = tier == 'quick'
     from vlib import refproto
@@ -411,6 +472,9 @@ def tasks(tier):
     for i in range(nsh):
         part = vs[i::nsh]
         tl.append(('versions_%d' % i, t_versions, dict(versions=part)))
+    for i in range(1 if q else 4):
+        tl.append(('real_%d' % i, t_real,
+                   dict(versions=rel, n=12 if q else 150)))
     for i in range(8 if q else 16):
         tl.append(('random_%d' % i, t_random,
                    dict(versions=vs, n=150 if q else 1500,
